@@ -103,6 +103,14 @@ func RunLedger(property string, tier Tier, profiles []*explore.Profile, require 
 	for _, ps := range passes {
 		p := ps.p
 		useLongIDs(ps.long)
+		// continuation: after the exhaustive levels the search goes on from the states of the last
+		// level with the smallest hashes (more starting points, longer histories)
+		if p.ContinueRoots == 0 && p.Depth >= 2 && p.Depth < 100 {
+			p.ContinueRoots, p.ContinueDepth = 512, 2
+			if tier.Thorough() {
+				p.ContinueRoots, p.ContinueDepth = 4096, 3
+			}
+		}
 		r, err := explore.Run(p)
 		if err != nil {
 			o.SelfCheck = append(o.SelfCheck, "profile "+p.Name+": "+err.Error())
@@ -123,6 +131,8 @@ func RunLedger(property string, tier Tier, profiles []*explore.Profile, require 
 			"profile": p.Name, "states": r.States, "transitions": r.Transitions, "legs": r.Legs,
 			"depth_bound": p.Depth, "depth_completed": r.DepthCompleted, "exhaustive_within_bound": r.Exhaustive,
 			"cap_hit": r.CapHit, "new_states_per_depth": compressDepths(r.PerDepthStates), "wall_s": r.Wall.Seconds(),
+			"continuation": map[string]interface{}{"roots": r.ContinueRoots, "further_levels_completed": r.ContinueDepthCompleted, "states": r.ContinueStates,
+				"note": "bounded exhaustive search from further starting points: the states of the last exhaustive level with the smallest hashes; not part of the exhaustive-within-bound claim"},
 		})
 		for _, s := range r.Samples {
 			samples = append(samples, map[string]interface{}{"profile": p.Name, "history": s})
@@ -155,10 +165,40 @@ func RunLedger(property string, tier Tier, profiles []*explore.Profile, require 
 	return Finish(o)
 }
 
+// threeShardProfile: the transfer menu over three shards (senders and destinations on every
+// shard, a third party in the third shard), one level shallower than the two-shard search.
+func threeShardProfile(tier Tier, oracles []explore.Oracle) *explore.Profile {
+	o := menuOpts{thorough: tier.Thorough(), shards: 3}
+	depth := 2
+	if tier.Thorough() {
+		depth = 3
+	}
+	return &explore.Profile{
+		Name: "transfer-3-shards", EnvCfg: ledgerEnv(3), Depth: depth, Deadline: tierDeadline(tier), Oracles: oracles,
+		Seeds: func(env *world.Env) []explore.SeedState {
+			var out []explore.SeedState
+			for _, n := range []string{"mixed", "refunds"} {
+				b := uni.SeedBuilder(env, n)
+				// the third party e2 (shard 2) holds both kinds as well
+				b.Must(uni.ESDTTransfer(uni.A0, uni.E2, uni.F, 2)).DeliverAll()
+				b.Must(uni.NFTTransfer(uni.A0, uni.E2, uni.S, 1, 1)).DeliverAll()
+				out = append(out, explore.SeedState{Name: n + "+e2", W: b.W, Legs: b.Legs, Failed: b.Failed})
+			}
+			return out
+		},
+		Menu: func(w *world.World) []world.Action {
+			acts := transferMenu(w, o)
+			acts = append(acts, deliveries(w)...)
+			acts = append(acts, freezeMenu(w, o, false)...)
+			return acts
+		},
+	}
+}
+
 func c01Profiles(tier Tier) []*explore.Profile {
 	p := transferProfile(tier)
 	p.Oracles = []explore.Oracle{&conservationOracle{property: "C01"}}
-	return []*explore.Profile{p, wideTransfersProfile(tier, p.Oracles), highNonceProfile("high-nonce", tier, p.Oracles, 3)}
+	return []*explore.Profile{p, threeShardProfile(tier, p.Oracles), wideTransfersProfile(tier, p.Oracles), highNonceProfile("high-nonce", tier, p.Oracles, 3)}
 }
 
 func init() { LedgerProfiles["C01"] = c01Profiles }
